@@ -438,7 +438,8 @@ fn gen_seeds(r: &mut Rng, n: usize, groups: bool, dyadic: bool, allow_missing: b
             if free.len() < 2 {
                 break;
             }
-            let m = r.range(2, 4.min(free.len()));
+            // now and then a group with a single member (which then has probability 1)
+            let m = if r.chance(1, 10) { 1 } else { r.range(2, 4.min(free.len())) };
             let members: Vec<usize> = free.drain(..m).collect();
             // numerators: a composition of 16 into m parts (zeros allowed now and then)
             let mut cuts: Vec<u32> = (0..m - 1).map(|_| { let lo = if r.chance(1, 6) { 0 } else { 1 }; r.range(lo, 15) as u32 }).collect();
